@@ -249,9 +249,13 @@ def analyse(lines, impl, mdl, fam, ctx=None):
                 ctx.count('outcome:' + impl_pub.split()[0] + ('' if allowed else '/outside-property-histories'))
             if not allowed and bp[4] == '1':
                 tainted = True           # a lenient conversion of an unknown name defined a member: outside the property's histories
-            if table_ok and (allowed or tainted) and impl_pub != spec:
-                yield ('violation', i, {'history': 'lenient-unknown-name' if tainted else 'values-only', 'op': OPNAME[op],
+            if table_ok and allowed and not tainted and impl_pub != spec:
+                yield ('violation', i, {'history': 'values-only', 'op': OPNAME[op],
                                         'class': classify(op, impl_pub, spec)}, impl_pub, spec)
+            elif table_ok and tainted and impl_pub != spec:
+                # a lenient conversion of an unknown *name* defined a visible member: the property quantifies over
+                # integer conversions only, so this is reported as information, never as a violation or finding
+                yield ('advisory', i, 'outside the property (lenient unknown NAME defines a member): %s gives %r, the values-only SPEC %r' % (OPNAME[op], impl_pub, spec))
             if impl_raw != mdl_raw:
                 if impl_pub == mdl_pub and impl_pub.startswith('SU'):
                     yield ('advisory', i, 'hidden member naming differs (private): impl %r, model %r' % (impl_raw, mdl_raw))
@@ -440,8 +444,10 @@ def run(ctx):
             else:
                 advisory.add(ev[2])
 
-    for n in sorted(advisory):
+    for n in sorted(advisory)[:20]:
         ctx.notes.append('advisory: ' + n)
+    if len(advisory) > 20:
+        ctx.notes.append('advisory: (%d more advisory notes not listed)' % (len(advisory) - 20))
     for k, (job, i, sig, got, want) in first.items():
         listed = any(f.get('status') == 'known' and all(sig.get(a) == b for a, b in f.get('match', {}).items()) for f in ctx.findings)
         lines = shrink(exe, job['lines'], i, job['family'], sig, minimise=not listed)
